@@ -22,7 +22,7 @@ func paramsFor(tier string) tierParams {
 		return tierParams{
 			poolMin: 4, poolMax: 12,
 			ringSmall: []int{3, 4, 5, 6, 8, 12, 16, 17, 24, 40, 63},
-			ringLarge: []int{64, 65, 100, 200, 400, 900, 2000},
+			ringLarge: []int{64, 65, 100, 200, 400, 900, 2000, 64, 100, 200, 5000},
 			largeP:    0.3,
 			maxTasks:  6, maxOps: 20,
 			bigChildren: []int{64, 65, 80, 130},
@@ -31,9 +31,11 @@ func paramsFor(tier string) tierParams {
 	return tierParams{
 		poolMin: 4, poolMax: 9,
 		ringSmall: []int{3, 4, 5, 6, 8, 12, 16, 17, 24, 40},
-		ringLarge: []int{64, 65, 100, 200},
+		ringLarge: []int{64, 65, 100, 200, 64, 65, 100, 200, 64, 100, 1030},
 		largeP:    0.2,
 		maxTasks:  5, maxOps: 12,
+		// sizes straddle plausible thresholds (64 is the library default; powers
+		// of two up to 4096), larger ones rarer
 		bigChildren: []int{64, 70},
 	}
 }
@@ -73,6 +75,24 @@ func (g *gen) parseOpts() ParseOpts {
 		DisableCircleType: r.Chance(0.15),
 		AllowRects:        r.Chance(0.5),
 	}
+}
+
+// manyChildren draws the size of a "big" collection: mostly just above the
+// library's default index threshold (64), rarely far above it, so that sizes
+// straddle other plausible thresholds (powers of two up to 4096).
+func (g *gen) manyChildren() int {
+	r := g.r
+	k := r.Intn(1000)
+	thorough := g.tp.maxTasks >= 6
+	switch {
+	case k < 15 || (thorough && k < 50):
+		return r.Pick(4096, 4100, 5000)
+	case k < 50 || (thorough && k < 130):
+		return r.Pick(1024, 1100)
+	case k < 150 || (thorough && k < 300):
+		return r.Pick(130, 256, 300)
+	}
+	return g.tp.bigChildren[r.Intn(len(g.tp.bigChildren))]
 }
 
 func (g *gen) ringN() int {
@@ -161,13 +181,13 @@ func (g *gen) recipe(kind string, depth int, small bool) Recipe {
 	case "MultiPoint":
 		rc.Shape.N = r.Pick(1, 2, 3, 5, 9, 20)
 		if !small && r.Chance(0.2) {
-			rc.Shape.N = g.tp.bigChildren[r.Intn(len(g.tp.bigChildren))]
+			rc.Shape.N = g.manyChildren()
 		}
 	case "MultiLineString", "MultiPolygon":
 		n := r.Pick(1, 2, 3, 5)
 		smallKids := false
 		if !small && r.Chance(0.15) {
-			n = g.tp.bigChildren[r.Intn(len(g.tp.bigChildren))]
+			n = g.manyChildren()
 			smallKids = true
 		}
 		ck := "LineString"
@@ -182,7 +202,7 @@ func (g *gen) recipe(kind string, depth int, small bool) Recipe {
 		n := r.Pick(0, 1, 2, 3, 5, 8)
 		smallKids := small
 		if !small && depth == 0 && r.Chance(0.15) {
-			n = g.tp.bigChildren[r.Intn(len(g.tp.bigChildren))]
+			n = g.manyChildren()
 			smallKids = true
 		}
 		for i := 0; i < n; i++ {
@@ -437,6 +457,8 @@ func genSpec(seed uint64, worker, run int, tier string) (*Spec, *Rng, faultSet) 
 		g.crowd(s, hot, fs)
 	case k < 14:
 		g.marathon(s, hot, fs, tier)
+	case k < 20:
+		g.argstorm(s, fs)
 	}
 	s.Order = r.Perm(len(s.Tasks))
 	return s, r, fs
@@ -509,6 +531,70 @@ func (g *gen) marathon(s *Spec, hot []int, fs faultSet, tier string) {
 		s.Tasks = append(s.Tasks, ops)
 	}
 	s.Strategy = "marathon"
+}
+
+var mArgValue = []string{"IntersectsPoint", "WithinPoint", "IntersectsRect", "WithinRect", "DistancePoint", "P.ContainsPoint", "P.IntersectsPoint", "P.ContainsRect", "P.IntersectsRect", "L.ContainsPoint", "L.IntersectsRect", "S.Search", "Search", "Contains", "Intersects", "Within"}
+
+// argstorm: several callers put many DIFFERENT arguments to one or two methods
+// of the same object, all drawn inside that object's bounding box (state that
+// is populated lazily per argument: memo tables, grids, per-cell caches).
+func (g *gen) argstorm(s *Spec, fs faultSet) {
+	r := g.r
+	// prefer a large geometry as the target
+	h := r.Intn(len(s.Pool))
+	for k := 0; k < 6; k++ {
+		c := r.Intn(len(s.Pool))
+		if s.Pool[c].Shape.N >= 64 && (s.Pool[c].Kind == "Polygon" || s.Pool[c].Kind == "LineString" || s.Pool[c].Kind == "Feature" || s.Pool[c].Kind == "MultiPolygon") {
+			h = c
+			break
+		}
+	}
+	sh := s.Pool[h].Shape
+	if len(s.Pool[h].Children) > 0 && (s.Pool[h].Kind == "Feature" || r.Chance(0.5)) {
+		sh = s.Pool[h].Children[r.Intn(len(s.Pool[h].Children))].Shape
+	}
+	if sh.R <= 0 {
+		sh.R = 1
+	}
+	// small point objects usable as arguments of Contains/Intersects/Within
+	var ptObjs []int
+	for i := range s.Pool {
+		if s.Pool[i].Kind == "Point" || s.Pool[i].Kind == "SimplePoint" || s.Pool[i].Kind == "MultiPoint" || s.Pool[i].Kind == "Rect" {
+			ptObjs = append(ptObjs, i)
+		}
+	}
+	nm := r.Pick(1, 1, 2, 3)
+	ms := make([]string, nm)
+	for i := range ms {
+		ms[i] = mArgValue[r.Intn(len(mArgValue))]
+	}
+	nt := r.Pick(2, 2, 3, 4)
+	s.Tasks = nil
+	for t := 0; t < nt; t++ {
+		n := r.Range(15, 80)
+		ops := make([]Op, n)
+		for i := range ops {
+			op := Op{M: ms[r.Intn(len(ms))], R: h, A: h}
+			if len(ptObjs) > 0 {
+				op.A = ptObjs[r.Intn(len(ptObjs))]
+			}
+			x := sh.Cx + sh.R*(2*r.Float()-1)
+			y := sh.Cy + sh.R*(2*r.Float()-1)
+			op.Pt = [2]float64{q64(x), q64(y)}
+			w, hh := sh.R*r.PickF(0, 0.02, 0.1, 0.3), sh.R*r.PickF(0, 0.02, 0.1, 0.3)
+			op.Rect = [4]float64{q64(x - w), q64(y - hh), q64(x + w), q64(y + hh)}
+			op.Ring = r.Intn(3)
+			if usesCallback(op.M) {
+				op.CB = &CB{}
+				if fs.cancel && r.Chance(0.2) {
+					op.CB.CancelAt = r.Range(1, 3)
+				}
+			}
+			ops[i] = op
+		}
+		s.Tasks = append(s.Tasks, ops)
+	}
+	s.Strategy = "argstorm"
 }
 
 // allMethods is every operation the driver knows, for sweep workloads.
@@ -588,12 +674,27 @@ func finalizeSchedule(s *Spec, r *Rng, fs faultSet, soloSteps int64) {
 		total = 4
 	}
 	var abs []absDecision
+	var hotDec []verifsim.Decision
 	pre := ""
-	if s.Strategy == "sweep" || s.Strategy == "crowd" || s.Strategy == "marathon" {
+	if s.Strategy == "sweep" || s.Strategy == "crowd" || s.Strategy == "marathon" || s.Strategy == "argstorm" {
 		pre = s.Strategy + "+"
 	}
 	defer func() { s.Strategy = pre + s.Strategy }()
-	switch k := r.Intn(100); {
+	k0 := r.Intn(100)
+	if nHotSites > 0 && r.Chance(0.35) {
+		k0 = 1000 // the library has synchronisation operations: aim at their windows
+	}
+	switch k := k0; {
+	case k == 1000:
+		s.Strategy = "hot"
+		n := r.Range(4, 400)
+		for i := 0; i < n; i++ {
+			to := int32(r.Intn(int(nt)))
+			if r.Chance(0.3) {
+				to = verifsim.ToDemote
+			}
+			hotDec = append(hotDec, verifsim.Decision{Gap: int32(r.Range(1, 4)), To: to, Hot: true})
+		}
 	case k < 8:
 		s.Strategy = "none"
 	case k < 25:
@@ -664,6 +765,9 @@ func finalizeSchedule(s *Spec, r *Rng, fs faultSet, soloSteps int64) {
 		}
 		prev += gap
 		s.Decisions = append(s.Decisions, verifsim.Decision{Gap: int32(gap), To: a.to})
+	}
+	if len(hotDec) > 0 {
+		s.Decisions = hotDec
 	}
 	s.SoloSteps = soloSteps
 }
